@@ -5,6 +5,7 @@ from ..core import AnalysisError, Finding
 from ..interp import TaintAbort, AnalysisAbort
 from ..par import pmap
 from .. import arrays as AR
+from ..world import with_lengths
 
 N_CHUNKS = 32
 
@@ -34,7 +35,9 @@ def _worker(prog, rep, job):
     taints = {}
     ncases = 0
     for fam in families:
-        gen_abort = list(mod.family(prog, fam, tier, "abort"))
+        base, _, lmode = fam.partition("@")
+        mk = (lambda tm: list(with_lengths(mod.family(prog, base, tier, tm), lmode))) if lmode else (lambda tm: list(mod.family(prog, base, tier, tm)))
+        gen_abort = mk("abort")
         gen_conc = None
         for j, th in enumerate(gen_abort):
             if j % n != idx:
@@ -43,7 +46,7 @@ def _worker(prog, rep, job):
                 case = th()
             except TaintAbort as e:
                 if gen_conc is None:
-                    gen_conc = list(mod.family(prog, fam, tier, "concrete"))
+                    gen_conc = mk("concrete")
                 case = gen_conc[j]()
                 taints[str(e)[:200]] = taints.get(str(e)[:200], 0) + 1
             if case is None:
